@@ -79,21 +79,23 @@ func check(c *c07case) string {
 	if err != nil {
 		return fmt.Sprintf("ReadCMap fails on a standard-form file: %v", err)
 	}
-	// the CMap with the smallest name is returned
-	m := c.CMaps[0]
-	for _, x := range c.CMaps[1:] {
-		if x.Name < m.Name {
-			m = x
-		}
-	}
-	// if a name occurs twice, the later definition replaces the earlier one
+	// which CMap of a file with several is returned is not part of this
+	// property (C17 requires the choice to be deterministic): the result must
+	// be one of the file's CMaps.  If a name occurs twice, the later
+	// definition replaces the earlier one.
+	got, _ := d["CMapName"].(postscript.Name)
+	var m *cmapref.CMap
 	for _, x := range c.CMaps {
-		if x.Name == m.Name {
+		if x.Name == string(got) {
 			m = x
 		}
 	}
-	if n, _ := d["CMapName"].(postscript.Name); string(n) != m.Name {
-		return fmt.Sprintf("CMapName = %v, want %q (the smallest name in the file)", d["CMapName"], m.Name)
+	if m == nil {
+		var names []string
+		for _, x := range c.CMaps {
+			names = append(names, x.Name)
+		}
+		return fmt.Sprintf("CMapName = %v, but the file defines %q", d["CMapName"], names)
 	}
 	si, ok := d["CIDSystemInfo"].(postscript.Dict)
 	if !ok {
@@ -412,7 +414,7 @@ func nontrivial(ms []*cmapref.CMap) bool {
 func TestP1CMaps(t *testing.T) {
 	rec := ev.New("C07", "cmaps")
 	defer rec.Finish(t)
-	rec.Rule("CMap files in the standard form from an independent serialiser: 1-3 CMaps per file (names may collide or be adjacent); name, CIDSystemInfo strings, supplement, CMapType, WMode 0/1 or absent, optional usecmap, optional missing /CMapName; 0-12 blocks of the seven kinds in any order with 0, 1-6, 20-99 or exactly 100 entries; codes of length 1-4 mixed, with corner bytes, duplicates and shared prefixes; destinations integer / string / name / array of strings and names as the kind allows; hex digit case, white space inside hex strings, comments, CR/LF/CRLF line ends. Oracle: CMapName, system info, type, writing mode, usecmap, and each of the seven tables equal to the file's entries as a multiset and non-decreasing by source code (code-space ranges by length then code); the CMap with the smallest name is returned. Non-trivial: >= 2 blocks and >= 1 block with >= 2 entries; distinct by file bytes.")
+	rec.Rule("CMap files in the standard form from an independent serialiser: 1-3 CMaps per file (names may collide or be adjacent); name, CIDSystemInfo strings, supplement, CMapType, WMode 0/1 or absent, optional usecmap, optional missing /CMapName; 0-12 blocks of the seven kinds in any order with 0, 1-6, 20-99 or exactly 100 entries; codes of length 1-4 mixed, with corner bytes, duplicates and shared prefixes; destinations integer / string / name / array of strings and names as the kind allows; hex digit case, white space inside hex strings, comments, CR/LF/CRLF line ends. Oracle: the returned dictionary is one of the file's CMaps (by CMapName; which one is C17's business), with that CMap's system info, type, writing mode, usecmap, and each of the seven tables equal to its entries as a multiset and non-decreasing by source code (code-space ranges by length then code). Non-trivial: >= 2 blocks and >= 1 block with >= 2 entries; distinct by file bytes.")
 	ev.SetupRapid(30000, 1000000)
 	rapid.Check(t, func(t *rapid.T) {
 		n := rapid.IntRange(1, 3).Draw(t, "ncmaps")
